@@ -9,7 +9,6 @@ BLOCK_DELIM = "print_string-block-string-delimiter"
 REINDENT = "block-string-reindented-by-writer"
 CR = "block-string-carriage-return-in-template"
 SPLIT = "js-string-writer-dollar-brace-split-across-writes"
-EXT_SCHEMA = "extend-schema-without-operations"
 EXT_UNION = "extend-union-without-members"
 
 
@@ -49,8 +48,6 @@ def classify(case, kind):
             cls.add(REINDENT)
         if f.get("cr_in_block"):
             cls.add(CR)
-        if f.get("extend_schema_without_operations"):
-            cls.add(EXT_SCHEMA)
         if f.get("extend_union_without_members"):
             cls.add(EXT_UNION)
     return cls
